@@ -124,21 +124,18 @@ def splitFirst (sep : UInt8) : Bytes → Bytes × Option Bytes
     if c == sep then ([], some t)
     else let r := splitFirst sep t; (c :: r.1, r.2)
 
-/-- `s.replace(pat, b"")` for a non-empty pattern: leftmost non-overlapping occurrences removed -/
-def removeAll (pat : Bytes) (s : Bytes) : Bytes :=
-  go s.length s
-where
-  go : Nat → Bytes → Bytes
-    | 0, s => s
-    | _ + 1, [] => []
-    | fuel + 1, c :: t =>
-      if pat.isPrefixOf (c :: t) then go fuel ((c :: t).drop pat.length) else c :: go fuel t
+/-- `s.replace(pat, b"")` for a non-empty pattern: the leftmost non-overlapping occurrences are removed.
+`skip` = number of bytes of an already matched occurrence still to be dropped. -/
+def removeAllAux (pat : Bytes) : Nat → Bytes → Bytes
+  | _, [] => []
+  | skip + 1, _ :: t => removeAllAux pat skip t
+  | 0, c :: t => if pat.isPrefixOf (c :: t) then removeAllAux pat (pat.length - 1) t else c :: removeAllAux pat 0 t
+
+def removeAll (pat : Bytes) (s : Bytes) : Bytes := removeAllAux pat 0 s
 
 def isDigit (c : UInt8) : Bool := 48 ≤ c.toNat && c.toNat ≤ 57
 
-def digitsVal : Bytes → Nat → Nat
-  | [], acc => acc
-  | c :: t, acc => digitsVal t (acc * 10 + (c.toNat - 48))
+def digitsVal (s : Bytes) (init : Nat) : Nat := s.foldl (fun acc c => 10 * acc + (c.toNat - 48)) init
 
 /-- bytes that make Python's `int()` accept more than plain digits (sign, underscore, whitespace incl. the latin-1
 ones): inputs containing one are out of model -/
